@@ -23,6 +23,7 @@ _CMP = {
 }
 _CALLS = {"len": len, "range": range, "abs": abs, "min": min, "max": max, "int": int, "set": set, "tuple": tuple, "list": list, "any": any, "all": all,
           "bool": bool, "frozenset": frozenset, "sorted": sorted, "sum": sum}
+_TYPES = {"int": int, "float": float, "str": str, "bool": bool, "tuple": tuple, "list": list, "set": set, "frozenset": frozenset, "dict": dict, "bytes": bytes}
 _STRM = ("strip", "lstrip", "rstrip", "lower", "upper", "startswith", "endswith", "find", "count", "replace", "translate", "isalpha")
 _SETM = ("isdisjoint", "intersection", "issubset", "issuperset", "union", "difference")
 
@@ -100,6 +101,14 @@ def ev(node, env, calls=None):
                 recv = go(n.func.value)
                 if isinstance(recv, str):
                     return getattr(recv, n.func.attr)(*[go(a) for a in n.args])
+            if isinstance(n.func, ast.Name) and n.func.id == "isinstance" and len(n.args) == 2 and not n.keywords:
+                tys = n.args[1].elts if isinstance(n.args[1], ast.Tuple) else [n.args[1]]
+                if all(isinstance(t, ast.Name) and t.id in _TYPES and t.id not in env for t in tys):
+                    return isinstance(go(n.args[0]), tuple(_TYPES[t.id] for t in tys))
+            if isinstance(n.func, ast.Attribute) and n.func.attr == "bit_length" and not n.keywords and not n.args:
+                recv = go(n.func.value)
+                if isinstance(recv, int) and not isinstance(recv, bool):
+                    return recv.bit_length()
             raise CannotEval(f"call {key}")
         if isinstance(n, (ast.ListComp, ast.GeneratorExp)) and len(n.generators) == 1 and isinstance(n.generators[0].target, ast.Name):
             g = n.generators[0]
